@@ -2,7 +2,7 @@
 # trymut.sh <seeded-or-refactor dir name> [seed] [tier] : apply seeded/<name>/patch.diff (or refactors/<name>) in a scratch worktree
 # and run the property's check against it (PYDL_REPO); /repo is not touched.  Evidence is restored afterwards.
 N=$1; S=${2:-0}; T=${3:-quick}
-D=/verif/seeded/$N; [ -d $D ] || D=/verif/refactors/$N
+case "$N" in refactors/*) D=/verif/$N; N=${N#refactors/};; *) D=/verif/seeded/$N; [ -d $D ] || D=/verif/refactors/$N;; esac
 ID=${N%-*}
 WT=/tmp/s/try-$N
 git -C /repo worktree remove --force $WT 2>/dev/null
